@@ -22,9 +22,13 @@ func init() {
 			"(d) the aggregator (found by its []*result.CertRevocationResult parameter) is decided by abstract interpretation over the finite domain Result in {OK, NonRevokable, Unknown, Revoked, other} per certificate, " +
 			"a two-point abstraction of the OK counter (equal to / below the number of completed iterations) and ghost bits sawRevoked / sawNonOK, iterated to a fixpoint over the loop: " +
 			"for every reachable abstract state the returned aggregate is Revoked if any certificate was Revoked, and not OK if any certificate was neither OK nor NonRevokable; " +
-			"the loop is cut by len(results) == len(chain), iterates over all results and indexes both slices with the same variable.",
-		NotCov:  "OCSP/CRL evaluation (notation-core-go revocation); result vectors are covered as abstract states, not as enumerated concrete vectors.",
-		Trusted: []string{"go/types, go/ssa", "notation-core-go revocation.Validator / Revocation", "soundness of the counter abstraction: the counter is only incremented by 1, at most once per iteration (checked)"},
+			"the loop is cut by len(results) == len(chain), iterates over all results and indexes both slices with the same variable. " +
+			"Operands that are parameters of an unexported helper are judged at every call site of the helper, results of a module helper at every return of it; " +
+			"a remembered position of a certificate (index tag) stands for the class of the result read there; nothing the aggregator reaches writes the results; " +
+			"a range-over-func loop over slices.Backward / slices.All of a never-reassigned slice variable is decided on its index-loop form.",
+		NotCov: "OCSP/CRL evaluation (notation-core-go revocation); result vectors are covered as abstract states, not as enumerated concrete vectors.",
+		Trusted: []string{"go/types, go/ssa", "notation-core-go revocation.Validator / Revocation", "soundness of the counter abstraction: the counter is only incremented by 1, at most once per iteration (checked)",
+			"standard library slices.Backward / slices.All yield (i, s[i]) for every index of s exactly once, in descending / ascending order, until the loop body breaks"},
 	})
 }
 
@@ -73,30 +77,12 @@ func runC05(c *Ctx) {
 		c.Unk("consts", "anchor: revocation result constants of notation-core-go", "-", "not found")
 		return
 	}
-	// R: the function invoking the code-signing validators on the signer's chain
-	var R *ssa.Function
-	var vcCall, vCall *ssa.Call
-	for _, fn := range w.FuncsOfPkg("verifier") {
-		for _, ci := range allCalls(fn) {
-			call, ok := ci.(*ssa.Call)
-			if !ok {
-				continue
-			}
-			switch calleeName(call) {
-			case "invoke:core/revocation.Revocation.Validate":
-				R, vCall = fn, call
-			}
-		}
-	}
-	if R != nil {
-		for _, ci := range allCalls(R) {
-			if call, ok := ci.(*ssa.Call); ok && calleeName(call) == "invoke:core/revocation.Validator.ValidateContext" {
-				vcCall = call
-			}
-		}
-	}
-	if R == nil || vcCall == nil || vCall == nil {
-		c.Unk("anchor", "anchor: the verifier function that consults revocation.Validator.ValidateContext and the deprecated revocation.Revocation.Validate", "-", "not found")
+	// R: the function that hands the validators' results to the aggregator. The two validator calls are found by the
+	// interface method they invoke (names of notation-core-go), in R itself or in a helper R reaches by static calls; the
+	// aggregator by its []*result.CertRevocationResult parameter.
+	R, A, aCall, vcCall, vCall, nCand := c05Anchors(w)
+	if R == nil || nCand != 1 {
+		c.Unk("anchor", "anchor: the verifier function that consults revocation.Validator.ValidateContext and the deprecated revocation.Revocation.Validate (itself or through a helper) and aggregates their results", "-", fmt.Sprintf("%d candidates", nCand))
 		return
 	}
 	c.SeenFn(R.String())
@@ -119,97 +105,142 @@ func runC05(c *Ctx) {
 			}
 		}
 	}
-	chainOK := func(v ssa.Value) bool {
+	// A chain operand that is a parameter of an extracted helper is judged at every call site of the helper (the list
+	// of call sites must be closed: unexported, never used as a value): what the validator receives is what the
+	// callers pass.
+	chainOK := func(v ssa.Value) (bool, string) {
 		if v == nil {
-			return false
+			return false, "?"
 		}
-		d := desc(v)
-		return strings.HasSuffix(d, ".EnvelopeContent.SignerInfo.CertificateChain")
+		os, ok := c05Origins(w, v, 3)
+		if !ok || len(os) == 0 {
+			return false, desc(v) + " (call sites not all known)"
+		}
+		var ds []string
+		all := true
+		for _, o := range os {
+			d := desc(o)
+			ds = append(ds, d)
+			if !strings.HasSuffix(d, ".EnvelopeContent.SignerInfo.CertificateChain") {
+				all = false
+			}
+		}
+		return all, strings.Join(uniq(sortStrings(ds)), " / ")
 	}
-	c.Check(chainOK(optChain), "args/chain-context-validator", "provenance: ValidateContext receives the complete (unsliced) SignerInfo.CertificateChain of the verified envelope", w.InstrPos(vcCall), "CertChain is "+desc(optChain))
-	c.Check(chainOK(vCall.Call.Args[0]), "args/chain-deprecated-client", "provenance: Revocation.Validate receives the complete (unsliced) SignerInfo.CertificateChain of the verified envelope", w.InstrPos(vCall), "chain argument is "+desc(vCall.Call.Args[0]))
+	okC, dC := chainOK(optChain)
+	c.Check(okC, "args/chain-context-validator", "provenance: ValidateContext receives the complete (unsliced) SignerInfo.CertificateChain of the verified envelope", w.InstrPos(vcCall), "CertChain is "+dC)
+	okC, dC = chainOK(vCall.Call.Args[0])
+	c.Check(okC, "args/chain-deprecated-client", "provenance: Revocation.Validate receives the complete (unsliced) SignerInfo.CertificateChain of the verified envelope", w.InstrPos(vCall), "chain argument is "+dC)
 	tV := vCall.Call.Args[1]
-	c.Check(optTime != nil && optTime == tV, "args/same-signing-time", "sibling agreement: both validator interfaces receive the same signing-time value", w.InstrPos(vCall), fmt.Sprintf("context validator gets %s, client gets %s", desc(optTime), desc(tV)))
+	// the same SSA value in one frame, or — when the value is a helper's parameter — the same single origin
+	sameTime := optTime != nil && optTime == tV
+	if !sameTime && optTime != nil {
+		o1, ok1 := c05Origins(w, optTime, 3)
+		o2, ok2 := c05Origins(w, tV, 3)
+		sameTime = ok1 && ok2 && len(o1) == 1 && len(o2) == 1 && o1[0] == o2[0]
+	}
+	c.Check(sameTime, "args/same-signing-time", "sibling agreement: both validator interfaces receive the same signing-time value", w.InstrPos(vCall), fmt.Sprintf("context validator gets %s, client gets %s", desc(optTime), desc(tV)))
 	sa, _ := w.depConstString("github.com/notaryproject/notation-core-go/signature", "SigningSchemeX509SigningAuthority")
+	// Every value that can flow into the signing-time operand (through phis, up through a helper's parameter to all call
+	// sites, down through a module helper to the operands of its returns) is either the zero time or the result of
+	// SignerInfo.AuthenticSigningTime selected on a path that passed scheme == signingAuthority in one of the frames it
+	// was reached through (the helper that computes it, or its caller). Both kinds must occur.
 	okTime := false
 	detail := "signing time is " + desc(tV)
-	if p, ok := tV.(*ssa.Phi); ok && len(p.Edges) == 2 {
-		nz, nonZero := 0, 0
-		for i, e := range p.Edges {
-			if k, ok := e.(*ssa.Const); ok && k.Value == nil {
+	if leaves, ok := c05Leaves(w, tV, []c05Frame{{vCall.Parent(), vCall.Block()}}, 4, map[ssa.Value]bool{}); ok {
+		nz, nonZero, bad := 0, 0, 0
+		for _, lf := range leaves {
+			if k, ok := lf.v.(*ssa.Const); ok && k.Value == nil && !k.IsNil() {
 				nz++
 				continue
 			}
-			if strings.HasPrefix(desc(e), "call:(*core/signature.SignerInfo).AuthenticSigningTime(") {
-				g, _ := fi.mustPassBetween([]int{0}, map[int]bool{p.Block().Preds[i].Index: true})
+			if !strings.HasPrefix(desc(lf.v), "call:(*core/signature.SignerInfo).AuthenticSigningTime(") {
+				bad++
+				detail = "the signing time may be " + desc(lf.v)
+				continue
+			}
+			guarded := false
+			for _, fr := range lf.frames {
+				g, _ := w.Info(fr.fn).mustPassBetween([]int{0}, map[int]bool{fr.at.Index: true})
 				if _, h := hasLabel(g, "EQ(", fmt.Sprintf(".SignedAttributes.SigningScheme,const:%q)", sa)); h {
-					nonZero++
-				} else {
-					detail = "the authentic signing time is used without the scheme == signingAuthority guard"
+					guarded = true
 				}
 			}
+			if guarded {
+				nonZero++
+			} else {
+				bad++
+				detail = "the authentic signing time is used without the scheme == signingAuthority guard"
+			}
 		}
-		okTime = nz == 1 && nonZero == 1
+		okTime = bad == 0 && nz >= 1 && nonZero >= 1
 	}
 	c.Evals++
 	c.Check(okTime, "args/signing-time-only-for-signing-authority", "the signing time handed to the validator is the zero time unless the scheme is notary.x509.signingAuthority", w.InstrPos(vCall), detail)
 
-	// aggregator
-	var A *ssa.Function
-	var aCall *ssa.Call
-	for _, ci := range allCalls(R) {
-		call, ok := ci.(*ssa.Call)
-		if !ok {
-			continue
-		}
-		g := staticCallee(call)
-		if g == nil || !w.IsProductFn(g) {
-			continue
-		}
-		for i := 0; i < g.Signature.Params().Len(); i++ {
-			if strings.Contains(g.Signature.Params().At(i).Type().String(), "revocation/result.CertRevocationResult") {
-				A, aCall = g, call
+	// (c) success exits of R. Edges that lead only to an exit whose result object is given a provably non-nil Error
+	// through a phi are removed first (see c05FailingPhiEdges): what remains are the paths on which the Error stays nil.
+	mode := Mode{Kind: mObj, K: 0}
+	failCut := c05FailingPhiEdges(fi, 0)
+	s := w.Summarize(R, mode)
+	if len(failCut) > 0 {
+		s = fi.summarizeFrom(mode, entryState(), failCut)
+	}
+	c.Evals += s.States
+	// the validators' error: the error-typed values of R that hand on the error of both validator calls (their phi, or
+	// the error result of a dispatch helper every return of which forwards one of them); the fact required is that
+	// value == nil, read off the branches of R that test it.
+	carry := &c05Carry{w: w, vc: vcCall, vv: vCall}
+	errVals := map[ssa.Value]bool{}
+	for _, b := range R.Blocks {
+		for _, in := range b.Instrs {
+			if v, ok := in.(ssa.Value); ok && isErrorType(v.Type()) && carry.both(v, 1) {
+				errVals[v] = true
 			}
 		}
 	}
-	if A == nil {
-		c.Unk("aggregator/anchor", "anchor: the aggregation function taking []*result.CertRevocationResult", w.FnPos(R), "not found")
-		return
+	var errAlt [][]string
+	for _, l := range c05NilEdges(fi, errVals) {
+		errAlt = append(errAlt, []string{l})
 	}
-	// (c) success exits of R
-	s := w.Summarize(R, Mode{Kind: mObj, K: 0})
-	c.Evals += s.States
+	if len(errAlt) == 0 {
+		errAlt = [][]string{{"EQ(<the error of the validator consulted>,nil) — no branch of " + fnName(R) + " tests it"}}
+	}
 	c.requireOnExits("result", R, s.Exits, []Need{
-		{Name: "validator-error", What: "the validator's error == nil", Subs: []string{"EQ(phi(call:invoke:core/revocation.Revocation.Validate(", "#err", "ValidateContext(", ",nil)"}},
+		{Name: "validator-error", What: "the validator's error == nil", Alt: errAlt},
 		{Name: "aggregate-ok", What: fmt.Sprintf("aggregate == ResultOK (%d): every other aggregate sets the result's Error", rc["ResultOK"]), Subs: []string{"EQ(call:" + fnName(A) + "(", fmt.Sprintf("#0,const:%d)", rc["ResultOK"])}},
 	})
-	// both-nil
+	// both-nil: the nil tests of the two receiver fields, rendered in R's frame (the validator calls may sit in a helper)
 	{
-		recv := "param:" + R.Params[0].Name()
-		cut := fi.edgesMatching(func(l string, _ *ssa.If, _ bool) bool {
-			return l == "NE("+desc(callArgs(vcCall)[0])+",nil)" || l == "NE("+desc(callArgs(vCall)[0])+",nil)"
-		})
-		_ = recv
-		wit := fi.successWitness(Mode{Kind: mObj, K: 0}, entryState(), cut)
+		want := map[string]bool{}
+		for _, call := range []*ssa.Call{vcCall, vCall} {
+			for _, d := range c05Lift(w, desc(callArgs(call)[0]), call.Parent(), R, 3) {
+				want["NE("+d+",nil)"] = true
+			}
+		}
+		cut := fi.edgesMatching(func(l string, _ *ssa.If, _ bool) bool { return want[l] })
+		n := len(cut)
+		for e := range failCut {
+			cut[e] = true
+		}
+		wit := fi.successWitness(mode, entryState(), cut)
 		c.Evals++
-		c.Check(len(cut) >= 2 && wit == nil, "result/both-validators-nil", "with neither a code-signing validator nor a client the revocation result carries an error", w.FnPos(R), "a success result is possible with both validators nil", wit...)
+		c.Check(n >= 2 && wit == nil, "result/both-validators-nil", "with neither a code-signing validator nor a client the revocation result carries an error", w.FnPos(R), "a success result is possible with both validators nil", wit...)
 	}
 	// aggregator arguments
 	{
-		okRes := false
-		if p, ok := aCall.Call.Args[0].(*ssa.Phi); ok {
-			n := 0
-			for _, e := range p.Edges {
-				if ex, ok := e.(*ssa.Extract); ok && (ex.Tuple == vcCall || ex.Tuple == vCall) && ex.Index == 0 {
-					n++
-				}
-			}
-			okRes = n == len(p.Edges) && n == 2
-		}
-		c.Check(okRes, "aggregator/results-argument", "provenance: the aggregator receives the results returned by the validator that was consulted", w.InstrPos(aCall), "results argument is "+desc(aCall.Call.Args[0]))
-		c.Check(chainOK(aCall.Call.Args[1]), "aggregator/chain-argument", "provenance: the aggregator receives the same complete certificate chain", w.InstrPos(aCall), "chain argument is "+desc(aCall.Call.Args[1]))
+		c.Check(carry.both(aCall.Call.Args[0], 0), "aggregator/results-argument", "provenance: the aggregator receives the results returned by the validator that was consulted", w.InstrPos(aCall), "results argument is "+desc(aCall.Call.Args[0]))
+		okC, dC := chainOK(aCall.Call.Args[1])
+		c.Check(okC, "aggregator/chain-argument", "provenance: the aggregator receives the same complete certificate chain", w.InstrPos(aCall), "chain argument is "+dC)
 	}
-	c05Aggregator(c, A, rc)
+	// A range-over-func loop over the standard slice iterators is decided on its index-loop form (see c05Desugar).
+	if w2, A2 := c05Desugar(c, A); A2 != nil {
+		c.W = w2
+		c05Aggregator(c, A2, rc)
+		c.W = w
+	} else {
+		c05Aggregator(c, A, rc)
+	}
 	c05Constructor(c, R, vcCall, vCall)
 }
 
@@ -415,6 +446,20 @@ func c05Aggregator(c *Ctx, A *ssa.Function, rc map[string]int64) {
 		}
 	}
 	c.Check(okIdx && idx != nil, "aggregator/same-index", "results and chain are indexed with the same variable (a result is attributed to its own certificate)", w.InstrPos(blockTerm(H)), "different index expressions are used")
+	if !okIdx {
+		idx = nil
+	}
+	// The abstract input of an iteration stands for the value results[i].Result has during the whole call (it is read
+	// several times, possibly again after the loop through a remembered index, and the element may be handed to a
+	// helper): nothing the aggregator reaches may write it.
+	{
+		wr := c05WritesResults(w, A)
+		site, detail := w.FnPos(A), ""
+		if len(wr) > 0 {
+			site, detail = w.InstrPos(wr[0]), fmt.Sprintf("%d store(s) to a CertRevocationResult.Result / an element of the results slice in %s or its callees", len(wr), fnName(A))
+		}
+		c.Check(len(wr) == 0, "aggregator/results-read-only", "the aggregator and the module functions it calls do not write the per-certificate results", site, detail)
+	}
 
 	// ---- abstract interpretation -------------------------------------------
 	resType := "core/revocation/result.Result"
@@ -432,11 +477,25 @@ func c05Aggregator(c *Ctx, A *ssa.Function, rc map[string]int64) {
 	var curInput AVal
 	inLoop := false
 	hook := func(in ssa.Instruction, env map[ssa.Value]AVal) (AVal, bool) {
+		if v, isVal := in.(ssa.Value); isVal && inLoop && idx != nil && v == idx {
+			return c05TagCur, true // the index the input of this iteration is read at
+		}
 		if isResLoad(in) {
 			if inLoop {
 				return curInput, true
 			}
+			// after (or before) the loop: results[k].Result with k a remembered index of a certificate of class v is v
+			if k := c05IndexOfLoad(in, resP); k != nil {
+				if v, ok := c05TagClass(env[k]); ok {
+					return AVal{Kind: aInt, Int: v}, true
+				}
+			}
 			return top, true
+		}
+		if bo, ok := in.(*ssa.BinOp); ok {
+			if a, handled := c05CmpIndex(bo, env); handled {
+				return a, true
+			}
 		}
 		if bo, ok := in.(*ssa.BinOp); ok && (bo.Op == token.EQL || bo.Op == token.NEQ) {
 			x, xok := env[bo.X]
@@ -468,6 +527,9 @@ func c05Aggregator(c *Ctx, A *ssa.Function, rc map[string]int64) {
 		e := map[ssa.Value]AVal{}
 		for i, p := range trackedPhis {
 			e[p] = s.vals[i]
+			if idx != nil && ssa.Value(p) == idx {
+				e[p] = c05TagCur
+			}
 		}
 		return e
 	}
@@ -475,6 +537,14 @@ func c05Aggregator(c *Ctx, A *ssa.Function, rc map[string]int64) {
 		if isPlainInt(p.Type()) {
 			if entering {
 				// counter candidates start at constant 0
+				return v
+			}
+			// a remembered index: the running index carried over the back edge is from now on "an index whose result
+			// was the input of the iteration that just ended"; an older tag and the negative "none yet" constant persist
+			if v == c05TagCur {
+				return c05Tag(curInput.Int)
+			}
+			if _, isTag := c05TagClass(v); isTag || (v.Kind == aInt && v.Int < 0) {
 				return v
 			}
 			if v.Kind == aCnt {
@@ -538,10 +608,13 @@ func c05Aggregator(c *Ctx, A *ssa.Function, rc map[string]int64) {
 		for _, p := range trackedPhis {
 			v := ip.val(p.Edges[pi], o.Env)
 			if isPlainInt(p.Type()) {
-				if k, ok := p.Edges[pi].(*ssa.Const); ok && k.Value != nil && k.Value.ExactString() == "0" {
-					v = AVal{Kind: aCnt, Eq: true}
-				} else {
-					v = top
+				v = top
+				if k, ok := p.Edges[pi].(*ssa.Const); ok && k.Value != nil {
+					if n, exact := constant.Int64Val(k.Value); exact && n == 0 {
+						v = AVal{Kind: aCnt, Eq: true}
+					} else if exact && n < 0 {
+						v = AVal{Kind: aInt, Int: n} // "no index remembered yet"
+					}
 				}
 			}
 			s.vals = append(s.vals, v)
@@ -632,11 +705,11 @@ func c05Aggregator(c *Ctx, A *ssa.Function, rc map[string]int64) {
 		c.OK("aggregator/decision", rule, w.InstrPos(blockTerm(H)))
 	}
 	// the subject reported for a revoked certificate: a flag-selected value that was assigned chain[i].Subject under Result == Revoked
-	c05Subject(c, A, H, chainP, resD, rc)
+	c05Subject(c, A, H, chainP, resD, rc, idx)
 }
 
 // c05Subject: the subject returned when the aggregate is Revoked names a revoked certificate.
-func c05Subject(c *Ctx, A *ssa.Function, H *ssa.BasicBlock, chainP *ssa.Parameter, resD string, rc map[string]int64) {
+func c05Subject(c *Ctx, A *ssa.Function, H *ssa.BasicBlock, chainP *ssa.Parameter, resD string, rc map[string]int64, idx ssa.Value) {
 	w := c.W
 	fi := w.Info(A)
 	rule := "the subject returned together with a Revoked aggregate is a value assigned from chain[i].Subject only in iterations whose result is Revoked"
@@ -704,6 +777,63 @@ func c05Subject(c *Ctx, A *ssa.Function, H *ssa.BasicBlock, chainP *ssa.Paramete
 			}
 			if allGuarded && n > 0 {
 				ok = true
+			}
+		}
+		// The same clause decided on a remembered position instead of a remembered string: the subject returned next to
+		// the constant Revoked is chain[k].Subject where k is a loop-carried int every in-loop source of which is the
+		// index the iteration reads its result at, assigned under Result == Revoked. Then chain[k] is the certificate
+		// of a Revoked result (the chain is indexed as the results are: aggregator/same-index).
+		if !ok && idx != nil {
+			for _, pr := range c05PairedWithRevoked(r, rc["ResultRevoked"]) {
+				if _, isPhi := pr.(*ssa.Phi); isPhi {
+					continue
+				}
+				d := desc(pr)
+				if !strings.Contains(d, "param:"+chainP.Name()+"[") || !strings.Contains(d, ".Subject") {
+					continue
+				}
+				k, isPhi := c05ChainIndex(pr, chainP, 8).(*ssa.Phi)
+				if !isPhi || k.Block() != H || !isPlainInt(k.Type()) {
+					continue
+				}
+				lb := loopBlocks(H)
+				srcSeen := map[ssa.Value]bool{}
+				allGuarded, n := true, 0
+				var rec func(v ssa.Value, from *ssa.BasicBlock)
+				rec = func(v ssa.Value, from *ssa.BasicBlock) {
+					if v == ssa.Value(k) {
+						return
+					}
+					if p, isPhi := v.(*ssa.Phi); isPhi && ssa.Value(p) != idx {
+						if srcSeen[v] {
+							return
+						}
+						srcSeen[v] = true
+						for i, e := range p.Edges {
+							rec(e, p.Block().Preds[i])
+						}
+						return
+					}
+					n++
+					if v != idx {
+						allGuarded = false
+						detail = "the remembered position may be " + desc(v) + ", which is not the index of the running iteration"
+						return
+					}
+					gl, _ := fi.mustPassBetween([]int{H.Index}, map[int]bool{from.Index: true})
+					if _, h := hasLabel(gl, "EQ("+resD+"[", fmt.Sprintf("].Result,const:%d)", rc["ResultRevoked"])); !h {
+						allGuarded = false
+						detail = "the position of the certificate reported as revoked is recorded in an iteration whose result need not be Revoked"
+					}
+				}
+				for i, e := range k.Edges {
+					if lb[H.Preds[i].Index] {
+						rec(e, H.Preds[i])
+					}
+				}
+				if allGuarded && n > 0 {
+					ok = true
+				}
 			}
 		}
 	}
